@@ -149,6 +149,12 @@ mod verif_c01 {
         script(Reply::Str(12), Reply::Natural);
         assert!(<ValueBehavior as Behavior>::deserialize_bytes(Src(0), UV).is_err());
         assert!(n() == 1);
+        // the standard alphabet ('+', '/'), not the URL-safe one ('-', '_')
+        script(Reply::Str(13), Reply::Natural);
+        assert!(<ValueBehavior as Behavior>::deserialize_bytes(Src(0), UV).is_ok());
+        assert!(n() == 2 && at(1) == Ev::VByteBuf(2, 0xfb));
+        script(Reply::Str(14), Reply::Natural);
+        assert!(<ValueBehavior as Behavior>::deserialize_bytes(Src(0), UV).is_err());
         kani::cover!(true);
     }
 
